@@ -77,6 +77,9 @@ def walk(e):
         return
     yield e
     k = e[0]
+    if k == 'decl' and len(e) > 2 and e[2] is not None:
+        # "T x = init;" is also the assignment x = init: rules written for assignments see it
+        yield ['b', '=', ['l', e[1]], e[2]] + ([e[3]] if len(e) > 3 and isinstance(e[3], int) else [])
     if k == 'call':
         yield from walk(e[1])
         for a in e[2]:
@@ -101,6 +104,8 @@ def walk_own(e):
     if k in ('ref', 'cf'):
         return
     yield e
+    if k == 'decl' and len(e) > 2 and e[2] is not None:
+        yield ['b', '=', ['l', e[1]], e[2]] + ([e[3]] if len(e) > 3 and isinstance(e[3], int) else [])
     if k == 'call':
         yield from walk_own(e[1])
         for a in e[2]:
